@@ -7,7 +7,7 @@ namespace Fontc.Components
 open Fontc
 
 /-- No glyph reachable from `b` (including `b`) has both components and contours. flatten_glyph assumes this
-    ("Assumed to run after component consistency is checked/fixed", glyph.rs:592). -/
+    ("Assumed to run after component consistency is checked/fixed", glyph.rs:615). -/
 def NoMixedFrom (G : Env) (b : String) : Prop :=
   ∀ m r, Reach G b m → G m = some r → r.comps ≠ [] → r.contours = []
 
